@@ -214,8 +214,11 @@ def do_execute(world, child_id, by):
         want = world.raised.get(child_id)
         LOG("raised", op="execute", pid=child_id, by=by, gen=world.gen, exc=type(err).__name__, msg=str(err)[:200],
             same_object=err is want, payload_raised=want is not None,
-            same_type_and_args=want is not None and type(err) is type(want) and err.args == want.args)
-        if isinstance(err, (KeyboardInterrupt, SystemExit, GeneratorExit, asyncio.CancelledError, trio.Cancelled)):
+            same_type_and_args=want is not None and type(err) is type(want) and err.args == want.args,
+            same_name_and_args=want is not None and type(err).__name__ == type(want).__name__ and err.args == want.args)
+        # the outcome of the executed payload is logged, not passed on: it must not become a failure
+        # of the calling payload (a blocking call cannot be interrupted by a genuine cancellation)
+        if isinstance(err, (KeyboardInterrupt, SystemExit, GeneratorExit)):
             raise
         return
     have = child_id in world.returned
